@@ -9,6 +9,25 @@
   linearly ordered field with a lawful `sqrt` (`C15.LawfulSqrt`; the `ℝ` instance with `Real.sqrt`
   is constructed below, so they are not vacuous).  No IEEE rounding is modelled.
 
+  UNIQUENESS.  Every real prox kernel is proved in the strong (quadratic-growth) form
+  `φ(x̂) + (u − x̂)²/(2γ) ≤ φ(u)` for all feasible `u`, hence `φ(u) ≤ φ(x̂) → u = x̂`
+  (`l1Prox_strong/_unique`, `soft_strong/_unique`, `proj_strong`, `projGradStepBox_strong/_unique`,
+  `boxL1_strong/_unique`, `proxGradStepBoxL1_strong/_unique`, `proxGradStep_vector_strong/_unique`;
+  the complex ℓ1 kernel: `cplxSoft_strong`, `cplxSoft_unique`).
+
+  INFINITE BOUNDS.  The field has no `±inf`.  Extended bounds are `Option α` (`none` = −∞ / +∞);
+  `clampO`, `boxL1O`, `inInteriorO`, `inactiveGeneralO` are the kernels with the `max` / `min` /
+  comparison of an infinite side absent — which is what IEEE computes with `±inf` on finite data
+  (`max(a, -inf) = a`, `-inf < a`), and what the driver runs at `Float`.  Bridge theorems
+  (`clamp_far`, `projectBox_inf`, `projGradStepBox_inf`, `proxStepBox_inf`, `proxGradStepBoxL1_inf`,
+  `inInterior_inf`, `inactiveGeneral_inf`, `proxGradStep_xhat_inf`): every finite stand-in that is
+  far enough (`Far`, explicit thresholds) makes the generated finite-bound kernel compute the
+  extended one; the minimiser / uniqueness / locally-shift theorems are then proved for the extended
+  kernels over the extended box (`clampO_strong`, `boxL1O_strong/_unique`,
+  `inInteriorO_iff_locallyShift`, `inactiveGeneralO_iff_locallyShift`,
+  `proxGradStep_vector_strong_inf/_unique_inf`, `inactiveIndices_iff_locally_shift_inf`).
+  `projMultipliers` takes the flags "bound is infinite" themselves, so needs no stand-in.
+
   NUCLEAR NORM — what is proved and what is the oracle's contract (`nuclear_prox_partial`).
   `NuclearNorm::prox` calls `Eigen::BDCSVD` (third party, an oracle of the model) and then
   thresholds the singular values, computes the value, selects `rank` leading triplets and forms
@@ -722,6 +741,671 @@ theorem nuclear_prox_partial (lam γ : α) (σ : List α) (hl : lam ≠ 0) (hγ 
 theorem nuclearPost_zero (γ : α) (σ : List α) : nuclearPost 0 γ σ = none := by
   simp [nuclearPost]
 
+/-! ### Strong form and uniqueness of the real prox kernels
+
+  `φ(u) = λ|u| + (u − v)²/(2γ)` is `1/γ`-strongly convex, so a minimiser `x̂` over an interval
+  satisfies `φ(x̂) + (u − x̂)²/(2γ) ≤ φ(u)` for every feasible `u` (quadratic growth) and is therefore
+  the *unique* minimiser: `φ(u) ≤ φ(x̂) → u = x̂`.  Proved for soft-thresholding (both spellings of the
+  source, scalar and per-component weights), the box projection, the box+ℓ1 step, and the vector
+  output of `C15.proxGradStep`; `γ > 0`, weights `≥ 0` incl. 0, arbitrary `lb ≤ ub`. -/
+
+/-- limit step, valid in every ordered field -/
+theorem le_sub_of_forall_scaled (a b c : α) (hc : 0 ≤ c)
+    (h : ∀ t : α, 0 < t → t < 1 → a ≤ b - (1 - t) * c) : a ≤ b - c := by
+  by_contra hcon
+  rw [not_le] at hcon
+  rcases hc.eq_or_lt with h0 | hpos
+  · have := h (1/2) (by norm_num) (by norm_num)
+    rw [← h0] at this hcon; linarith
+  · set ε := a - (b - c) with hε
+    have hεpos : 0 < ε := by linarith
+    have ht0 : 0 < min (1/2) (ε / (2 * c)) := lt_min (by norm_num) (by positivity)
+    have ht1 : min (1/2) (ε / (2 * c)) < 1 := lt_of_le_of_lt (min_le_left _ _) (by norm_num)
+    have := h _ ht0 ht1
+    have h2 : min (1/2) (ε / (2 * c)) * c ≤ ε / 2 := by
+      calc min (1/2) (ε / (2 * c)) * c ≤ ε / (2 * c) * c := mul_le_mul_of_nonneg_right (min_le_right _ _) hpos.le
+        _ = ε / 2 := by field_simp
+    linarith
+
+/-- the objective of every real ℓ1-type prox here -/
+def phiL1 (lam γ v u : α) : α := lam * |u| + (u - v) ^ 2 / (2 * γ)
+
+/-- `φ` is `1/γ`-strongly convex along segments. -/
+theorem phiL1_strong_convex (lam γ v a b t : α) (hl : 0 ≤ lam) (hγ : 0 < γ) (ht0 : 0 ≤ t) (ht1 : t ≤ 1) :
+    phiL1 lam γ v (a + t * (b - a)) ≤ (1 - t) * phiL1 lam γ v a + t * phiL1 lam γ v b - t * (1 - t) * ((b - a) ^ 2 / (2 * γ)) := by
+  unfold phiL1
+  have habs : |a + t * (b - a)| ≤ (1 - t) * |a| + t * |b| := by
+    calc |a + t * (b - a)| = |(1 - t) * a + t * b| := by congr 1; ring
+      _ ≤ |(1 - t) * a| + |t * b| := abs_add_le _ _
+      _ = (1 - t) * |a| + t * |b| := by rw [abs_mul, abs_mul, abs_of_nonneg ht0, abs_of_nonneg (by linarith : 0 ≤ 1 - t)]
+  have hq : (a + t * (b - a) - v) ^ 2 / (2 * γ) = (1 - t) * ((a - v) ^ 2 / (2 * γ)) + t * ((b - v) ^ 2 / (2 * γ)) - t * (1 - t) * ((b - a) ^ 2 / (2 * γ)) := by
+    field_simp; ring
+  rw [hq]
+  nlinarith [mul_le_mul_of_nonneg_left habs hl]
+
+/-- **weak ⇒ strong**: a minimiser of `φ` over an interval-closed set `C` satisfies the strong
+    (quadratic-growth) inequality on `C`. -/
+theorem strong_of_min (lam γ v xh : α) (C : α → Prop) (hl : 0 ≤ lam) (hγ : 0 < γ)
+    (hconv : ∀ a b t : α, C a → C b → 0 ≤ t → t ≤ 1 → C (a + t * (b - a)))
+    (hx : C xh) (hmin : ∀ u, C u → phiL1 lam γ v xh ≤ phiL1 lam γ v u) (u : α) (hu : C u) :
+    phiL1 lam γ v xh + (u - xh) ^ 2 / (2 * γ) ≤ phiL1 lam γ v u := by
+  have h2γ : (0:α) < 2 * γ := by linarith
+  have hc : 0 ≤ (u - xh) ^ 2 / (2 * γ) := div_nonneg (sq_nonneg _) h2γ.le
+  have := le_sub_of_forall_scaled (phiL1 lam γ v xh) (phiL1 lam γ v u) ((u - xh) ^ 2 / (2 * γ)) hc (by
+    intro t ht0 ht1
+    have h1 := hmin _ (hconv xh u t hx hu ht0.le ht1.le)
+    have h2 := phiL1_strong_convex lam γ v xh u t hl hγ ht0.le ht1.le
+    have h3 : t * phiL1 lam γ v xh ≤ t * (phiL1 lam γ v u - (1 - t) * ((u - xh) ^ 2 / (2 * γ))) := by nlinarith
+    exact le_of_mul_le_mul_left h3 ht0)
+  linarith
+
+theorem eq_of_strong (γ a b u xh : α) (hγ : 0 < γ) (hs : a + (u - xh) ^ 2 / (2 * γ) ≤ b) (hle : b ≤ a) : u = xh := by
+  have h2γ : (0:α) < 2 * γ := by linarith
+  have hq : (u - xh) ^ 2 / (2 * γ) ≤ 0 := by linarith
+  have hq' : (u - xh) ^ 2 ≤ 0 := by
+    by_contra hc; rw [not_le] at hc
+    exact absurd (div_pos hc h2γ) (not_lt.mpr hq)
+  have : u - xh = 0 := by nlinarith [sq_nonneg (u - xh)]
+  linarith
+/-- **strong form** for `L1Norm::prox` -/
+theorem l1Prox_strong (lam γ v : α) (hl : 0 ≤ lam) (hγ : 0 < γ) (u : α) :
+    lam * |l1ProxScalarW lam γ v| + (l1ProxScalarW lam γ v - v) ^ 2 / (2 * γ)
+        + (u - l1ProxScalarW lam γ v) ^ 2 / (2 * γ)
+      ≤ lam * |u| + (u - v) ^ 2 / (2 * γ) :=
+  strong_of_min lam γ v _ (fun _ => True) hl hγ (fun _ _ _ _ _ _ _ => trivial) trivial
+    (fun u _ => l1Prox_is_prox lam γ v hl hγ u) u trivial
+
+theorem l1Prox_unique (lam γ v : α) (hl : 0 ≤ lam) (hγ : 0 < γ) (u : α)
+    (hu : lam * |u| + (u - v) ^ 2 / (2 * γ)
+      ≤ lam * |l1ProxScalarW lam γ v| + (l1ProxScalarW lam γ v - v) ^ 2 / (2 * γ)) :
+    u = l1ProxScalarW lam γ v :=
+  eq_of_strong γ _ _ u _ hγ (l1Prox_strong lam γ v hl hγ u) hu
+
+theorem soft_strong (lam γ v : α) (hl : 0 ≤ lam) (hγ : 0 < γ) (u : α) :
+    lam * |max (min 0 (v + γ * lam)) (v - γ * lam)| +
+        (max (min 0 (v + γ * lam)) (v - γ * lam) - v) ^ 2 / (2 * γ)
+        + (u - max (min 0 (v + γ * lam)) (v - γ * lam)) ^ 2 / (2 * γ)
+      ≤ lam * |u| + (u - v) ^ 2 / (2 * γ) :=
+  strong_of_min lam γ v _ (fun _ => True) hl hγ (fun _ _ _ _ _ _ _ => trivial) trivial
+    (fun u _ => soft_is_prox lam γ v hl hγ u) u trivial
+
+theorem interval_convex (lb ub a b t : α) (ha : lb ≤ a ∧ a ≤ ub) (hb : lb ≤ b ∧ b ≤ ub) (ht0 : 0 ≤ t) (ht1 : t ≤ 1) :
+    lb ≤ a + t * (b - a) ∧ a + t * (b - a) ≤ ub := by
+  constructor
+  · nlinarith [mul_nonneg ht0 (sub_nonneg.mpr hb.1), mul_nonneg (sub_nonneg.mpr ht1) (sub_nonneg.mpr ha.1)]
+  · nlinarith [mul_nonneg ht0 (sub_nonneg.mpr hb.2), mul_nonneg (sub_nonneg.mpr ht1) (sub_nonneg.mpr ha.2)]
+
+theorem boxL1_strong (lam γ v lb ub : α) (hl : 0 ≤ lam) (hγ : 0 < γ) (hlu : lb ≤ ub)
+    (u : α) (hu1 : lb ≤ u) (hu2 : u ≤ ub) :
+    lam * |boxL1 (γ * lam) lb ub v| + (boxL1 (γ * lam) lb ub v - v) ^ 2 / (2 * γ)
+        + (u - boxL1 (γ * lam) lb ub v) ^ 2 / (2 * γ)
+      ≤ lam * |u| + (u - v) ^ 2 / (2 * γ) :=
+  strong_of_min lam γ v _ (fun w => lb ≤ w ∧ w ≤ ub) hl hγ
+    (fun a b t ha hb h0 h1 => interval_convex lb ub a b t ha hb h0 h1) (boxL1_in_box _ _ _ _ hlu)
+    (fun w hw => boxL1_is_prox lam γ v lb ub hl hγ hlu w hw.1 hw.2) u ⟨hu1, hu2⟩
+
+theorem boxL1_unique (lam γ v lb ub : α) (hl : 0 ≤ lam) (hγ : 0 < γ) (hlu : lb ≤ ub)
+    (u : α) (hu1 : lb ≤ u) (hu2 : u ≤ ub)
+    (hu : lam * |u| + (u - v) ^ 2 / (2 * γ)
+      ≤ lam * |boxL1 (γ * lam) lb ub v| + (boxL1 (γ * lam) lb ub v - v) ^ 2 / (2 * γ)) :
+    u = boxL1 (γ * lam) lb ub v :=
+  eq_of_strong γ _ _ u _ hγ (boxL1_strong lam γ v lb ub hl hγ hlu u hu1 hu2) hu
+
+/-- box projection, strong form (obtuse-angle / Pythagoras inequality). -/
+theorem proj_strong (v lb ub : α) (h : lb ≤ ub) (u : α) (hl : lb ≤ u) (hu : u ≤ ub) :
+    (min (max v lb) ub - v) ^ 2 + (u - min (max v lb) ub) ^ 2 ≤ (u - v) ^ 2 := by
+  rcases le_total v lb with h1 | h1
+  · rw [max_eq_right h1, min_eq_left h]; nlinarith [mul_nonneg (sub_nonneg.mpr h1) (sub_nonneg.mpr hl)]
+  · rw [max_eq_left h1]
+    rcases le_total v ub with h3 | h3
+    · rw [min_eq_left h3]; nlinarith
+    · rw [min_eq_right h3]; nlinarith [mul_nonneg (sub_nonneg.mpr h3) (sub_nonneg.mpr hu)]
+
+theorem sum_range_add (n : Nat) (f g : Nat → α) :
+    ((List.range n).map fun i => f i + g i).sum = ((List.range n).map f).sum + ((List.range n).map g).sum := by
+  induction n with
+  | zero => simp
+  | succ m ih => simp only [List.range_succ, List.map_append, List.sum_append, ih, List.map_cons, List.map_nil, List.sum_cons, List.sum_nil]; ring
+
+theorem sum_range_nonneg_le_zero (n : Nat) (f : Nat → α) (h0 : ∀ i < n, 0 ≤ f i)
+    (hs : ((List.range n).map f).sum ≤ 0) : ∀ i < n, f i = 0 := by
+  induction n with
+  | zero => intro i hi; omega
+  | succ m ih =>
+    simp only [List.range_succ, List.map_append, List.sum_append, List.map_cons, List.map_nil, List.sum_cons, List.sum_nil, add_zero] at hs
+    have hm : 0 ≤ ((List.range m).map f).sum := List.sum_nonneg (by
+      intro x hx; simp only [List.mem_map, List.mem_range] at hx
+      obtain ⟨i, hi, rfl⟩ := hx; exact h0 i (by omega))
+    have hfm := h0 m (by omega)
+    intro i hi
+    rcases Nat.lt_succ_iff_lt_or_eq.mp hi with h | h
+    · exact ih (fun j hj => h0 j (by omega)) (by linarith) i h
+    · subst h; linarith
+
+/-- generic lift: componentwise strong inequalities + "`u` does as well as `x̂`" force `u = x̂`. -/
+theorem vector_unique_of_strong (n : Nat) (γ : α) (hγ : 0 < γ) (φx φu xh u : Nat → α)
+    (hs : ∀ i < n, φx i + (u i - xh i) ^ 2 / (2 * γ) ≤ φu i)
+    (hle : ((List.range n).map φu).sum ≤ ((List.range n).map φx).sum) : ∀ i < n, u i = xh i := by
+  have h2γ : (0:α) < 2 * γ := by linarith
+  have hsum : ((List.range n).map φx).sum + ((List.range n).map fun i => (u i - xh i) ^ 2 / (2 * γ)).sum
+      ≤ ((List.range n).map φu).sum := by
+    rw [← sum_range_add]; exact sum_range_le _ _ _ hs
+  have hz := sum_range_nonneg_le_zero n (fun i => (u i - xh i) ^ 2 / (2 * γ))
+    (fun i _ => div_nonneg (sq_nonneg _) h2γ.le) (by linarith)
+  intro i hi
+  have := hz i hi
+  rw [div_eq_zero_iff] at this
+  rcases this with h | h
+  · have : u i - xh i = 0 := by simpa using h
+    linarith
+  · exact absurd h h2γ.ne'
+
+theorem proxGradStep_vector_strong (l1 : Vec α) (γ : α) (x g lb ub : Vec α) (hγ : 0 < γ)
+    (hb : ∀ i < x.length, vget lb i ≤ vget ub i) (hl : ∀ i < x.length, 0 ≤ lamAt l1 i)
+    (u : Vec α) (hu : ∀ i < x.length, vget lb i ≤ vget u i ∧ vget u i ≤ vget ub i) :
+    ((List.range x.length).map fun i =>
+        lamAt l1 i * |vget (proxGradStep l1 γ x g lb ub).2.1 i|
+          + (vget (proxGradStep l1 γ x g lb ub).2.1 i - (vget x i - γ * vget g i)) ^ 2 / (2 * γ)).sum
+      + ((List.range x.length).map fun i =>
+          (vget u i - vget (proxGradStep l1 γ x g lb ub).2.1 i) ^ 2 / (2 * γ)).sum
+      ≤ ((List.range x.length).map fun i =>
+        lamAt l1 i * |vget u i| + (vget u i - (vget x i - γ * vget g i)) ^ 2 / (2 * γ)).sum := by
+  rw [← sum_range_add]
+  apply sum_range_le
+  intro i hi
+  rw [proxGradStep_xhat _ _ _ _ _ _ _ hi]
+  exact boxL1_strong (lamAt l1 i) γ _ _ _ (hl i hi) hγ (hb i hi) _ (hu i hi).1 (hu i hi).2
+
+theorem proxGradStep_vector_unique (l1 : Vec α) (γ : α) (x g lb ub : Vec α) (hγ : 0 < γ)
+    (hb : ∀ i < x.length, vget lb i ≤ vget ub i) (hl : ∀ i < x.length, 0 ≤ lamAt l1 i)
+    (u : Vec α) (hu : ∀ i < x.length, vget lb i ≤ vget u i ∧ vget u i ≤ vget ub i)
+    (hle : ((List.range x.length).map fun i =>
+        lamAt l1 i * |vget u i| + (vget u i - (vget x i - γ * vget g i)) ^ 2 / (2 * γ)).sum
+      ≤ ((List.range x.length).map fun i =>
+        lamAt l1 i * |vget (proxGradStep l1 γ x g lb ub).2.1 i|
+          + (vget (proxGradStep l1 γ x g lb ub).2.1 i - (vget x i - γ * vget g i)) ^ 2 / (2 * γ)).sum) :
+    (∀ i < x.length, vget u i = vget (proxGradStep l1 γ x g lb ub).2.1 i) ∧
+    (u.length = x.length → u = (proxGradStep l1 γ x g lb ub).2.1) := by
+  have hs := proxGradStep_vector_strong l1 γ x g lb ub hγ hb hl u hu
+  have h2γ : (0:α) < 2 * γ := by linarith
+  have hz := sum_range_nonneg_le_zero x.length
+    (fun i => (vget u i - vget (proxGradStep l1 γ x g lb ub).2.1 i) ^ 2 / (2 * γ))
+    (fun i _ => div_nonneg (sq_nonneg _) h2γ.le) (by linarith)
+  have hall : ∀ i < x.length, vget u i = vget (proxGradStep l1 γ x g lb ub).2.1 i := by
+    intro i hi
+    have := hz i hi
+    rw [div_eq_zero_iff] at this
+    rcases this with h | h
+    · have : vget u i - vget (proxGradStep l1 γ x g lb ub).2.1 i = 0 := by simpa using h
+      linarith
+    · exact absurd h h2γ.ne'
+  refine ⟨hall, fun hlen => ?_⟩
+  apply List.ext_getElem
+  · rw [hlen, proxGradStep_xhat_length]
+  · intro i h1 h2
+    have := hall i (by omega)
+    simpa [vget, List.getD_eq_getElem?_getD, h1, h2] using this
+
+/-- the generated kernels, strong form and uniqueness stated on them directly. -/
+theorem projGradStepBox_strong (γ x g lb ub : α) (h : lb ≤ ub) (u : α) (hl : lb ≤ u) (hu : u ≤ ub) :
+    ((projGradStepBox γ x g lb ub).2 - (x - γ * g)) ^ 2 + (u - (projGradStepBox γ x g lb ub).2) ^ 2
+      ≤ (u - (x - γ * g)) ^ 2 := by
+  rw [projGradStepBox_eq_proj]; exact proj_strong _ lb ub h u hl hu
+
+theorem projGradStepBox_unique (γ x g lb ub : α) (h : lb ≤ ub) (u : α) (hl : lb ≤ u) (hu : u ≤ ub)
+    (hle : (u - (x - γ * g)) ^ 2 ≤ ((projGradStepBox γ x g lb ub).2 - (x - γ * g)) ^ 2) :
+    u = (projGradStepBox γ x g lb ub).2 := by
+  have := projGradStepBox_strong γ x g lb ub h u hl hu
+  have : u - (projGradStepBox γ x g lb ub).2 = 0 := by
+    nlinarith [sq_nonneg (u - (projGradStepBox γ x g lb ub).2)]
+  linarith
+
+theorem proxGradStepBoxL1_xhat (lam γ x g lb ub : α) :
+    (proxGradStepBoxL1 lam γ x g lb ub).2 = boxL1 (γ * lam) lb ub (x - γ * g) :=
+  (proxGradStepBoxL1_eq lam γ x g lb ub).1
+
+theorem proxGradStepBoxL1_strong (lam γ x g lb ub : α) (hl : 0 ≤ lam) (hγ : 0 < γ) (hlu : lb ≤ ub)
+    (u : α) (hu1 : lb ≤ u) (hu2 : u ≤ ub) :
+    lam * |(proxGradStepBoxL1 lam γ x g lb ub).2|
+        + ((proxGradStepBoxL1 lam γ x g lb ub).2 - (x - γ * g)) ^ 2 / (2 * γ)
+        + (u - (proxGradStepBoxL1 lam γ x g lb ub).2) ^ 2 / (2 * γ)
+      ≤ lam * |u| + (u - (x - γ * g)) ^ 2 / (2 * γ) := by
+  rw [proxGradStepBoxL1_xhat]; exact boxL1_strong lam γ _ lb ub hl hγ hlu u hu1 hu2
+
+theorem proxGradStepBoxL1_unique (lam γ x g lb ub : α) (hl : 0 ≤ lam) (hγ : 0 < γ) (hlu : lb ≤ ub)
+    (u : α) (hu1 : lb ≤ u) (hu2 : u ≤ ub)
+    (hle : lam * |u| + (u - (x - γ * g)) ^ 2 / (2 * γ)
+      ≤ lam * |(proxGradStepBoxL1 lam γ x g lb ub).2|
+        + ((proxGradStepBoxL1 lam γ x g lb ub).2 - (x - γ * g)) ^ 2 / (2 * γ)) :
+    u = (proxGradStepBoxL1 lam γ x g lb ub).2 := by
+  rw [proxGradStepBoxL1_xhat] at hle ⊢; exact boxL1_unique lam γ _ lb ub hl hγ hlu u hu1 hu2 hle
+
+/-- the per-component-weight spelling of `L1Norm::prox` is the same kernel. -/
+theorem l1ProxVectorW_strong (lam γ v : α) (hl : 0 ≤ lam) (hγ : 0 < γ) (u : α) :
+    lam * |l1ProxVectorW lam γ v| + (l1ProxVectorW lam γ v - v) ^ 2 / (2 * γ)
+        + (u - l1ProxVectorW lam γ v) ^ 2 / (2 * γ)
+      ≤ lam * |u| + (u - v) ^ 2 / (2 * γ) := l1Prox_strong lam γ v hl hγ u
+
+theorem l1ProxVectorW_unique (lam γ v : α) (hl : 0 ≤ lam) (hγ : 0 < γ) (u : α)
+    (hu : lam * |u| + (u - v) ^ 2 / (2 * γ)
+      ≤ lam * |l1ProxVectorW lam γ v| + (l1ProxVectorW lam γ v - v) ^ 2 / (2 * γ)) :
+    u = l1ProxVectorW lam γ v := l1Prox_unique lam γ v hl hγ u hu
+
+theorem soft_unique (lam γ v : α) (hl : 0 ≤ lam) (hγ : 0 < γ) (u : α)
+    (hu : lam * |u| + (u - v) ^ 2 / (2 * γ)
+      ≤ lam * |max (min 0 (v + γ * lam)) (v - γ * lam)| +
+        (max (min 0 (v + γ * lam)) (v - γ * lam) - v) ^ 2 / (2 * γ)) :
+    u = max (min 0 (v + γ * lam)) (v - γ * lam) :=
+  eq_of_strong γ _ _ u _ hγ (soft_strong lam γ v hl hγ u) hu
+
+/-! ### Infinite bounds -/
+
+/-- `max v lb` with an extended lower bound (`none` = −∞: no `max`). -/
+def maxLbO (lb : Option α) (v : α) : α := match lb with | none => v | some l => max v l
+/-- `min v ub` with an extended upper bound (`none` = +∞: no `min`). -/
+def minUbO (ub : Option α) (v : α) : α := match ub with | none => v | some b => min v b
+/-- projection onto a box with extended bounds. -/
+def clampO (lb ub : Option α) (v : α) : α := minUbO ub (maxLbO lb v)
+/-- box+ℓ1 prox with extended bounds. -/
+def boxL1O (t : α) (lb ub : Option α) (v : α) : α := clampO lb ub (max (min 0 (v + t)) (v - t))
+/-- membership in a box with extended bounds. -/
+def InBoxO (lb ub : Option α) (u : α) : Prop := (∀ l, lb = some l → l ≤ u) ∧ (∀ b, ub = some b → u ≤ b)
+/-- a non-empty extended box. -/
+def BoxOK (lb ub : Option α) : Prop := ∀ l b, lb = some l → ub = some b → l ≤ b
+/-- strict interior test with extended bounds (`-inf < v`, `v < +inf` are true for finite `v`). -/
+def inInteriorO (lb ub : Option α) (v : α) : Bool :=
+  (match lb with | none => true | some l => decide (l < v)) &&
+  (match ub with | none => true | some b => decide (v < b))
+/-- `update_J_general` with extended bounds. -/
+def inactiveGeneralO (lam γ : α) (lb ub : Option α) (xfw : α) : Bool :=
+  if lam = 0 then inInteriorO lb ub xfw
+  else if γ * lam < xfw then inInteriorO lb ub (xfw - γ * lam)
+  else if xfw < -γ * lam then inInteriorO lb ub (xfw + γ * lam)
+  else false
+
+/-- Finite stand-ins `(lb', ub')` for extended bounds `(lb, ub)`: equal to the bound where it is
+    finite; where it is infinite, any value `≤ L` (lower) / `≥ U` (upper) — "sufficiently far". -/
+def Far (lb ub : Option α) (L U lb' ub' : α) : Prop :=
+  (match lb with | none => lb' ≤ L | some l => lb' = l) ∧
+  (match ub with | none => U ≤ ub' | some b => ub' = b)
+
+theorem Far.mono {lb ub : Option α} {L U L' U' lb' ub' : α} (h : Far lb ub L U lb' ub')
+    (hL : L ≤ L') (hU : U' ≤ U) : Far lb ub L' U' lb' ub' := by
+  cases lb <;> cases ub <;> simp only [Far] at h ⊢ <;> refine ⟨?_, ?_⟩ <;>
+    first | exact h.1 | exact h.2 | exact h.1.trans hL | exact hU.trans h.2
+
+/-- finite bounds stand for themselves. -/
+theorem Far.some (l b L U : α) : Far (some l) (some b) L U l b := ⟨rfl, rfl⟩
+
+/-- stand-ins always exist. -/
+theorem Far.exists (lb ub : Option α) (L U : α) : ∃ lb' ub', Far lb ub L U lb' ub' :=
+  ⟨lb.getD L, ub.getD U, by cases lb <;> cases ub <;> simp [Far]⟩
+
+theorem maxLbO_mono (lb : Option α) {v w : α} (h : v ≤ w) : maxLbO lb v ≤ maxLbO lb w := by
+  cases lb with
+  | none => exact h
+  | some l => exact max_le_max h le_rfl
+
+theorem le_maxLbO (lb : Option α) (v : α) : v ≤ maxLbO lb v := by
+  cases lb with
+  | none => exact le_rfl
+  | some l => exact le_max_left _ _
+
+theorem clampO_some (l b v : α) : clampO (some l) (some b) v = min (max v l) b := rfl
+theorem boxL1O_some (t l b v : α) : boxL1O t (some l) (some b) v = boxL1 t l b v := rfl
+theorem inInteriorO_some (l b v : α) : inInteriorO (some l) (some b) v = inInterior l b v := rfl
+
+/-- **the bridge for the clamp**: with stand-ins that are far enough for the point `w`, the finite
+    clamp computes the extended one. -/
+theorem clamp_far (lb ub : Option α) (w lb' ub' : α) (h : Far lb ub w (maxLbO lb w) lb' ub') :
+    min (max w lb') ub' = clampO lb ub w := by
+  cases lb <;> cases ub <;> simp only [Far, maxLbO] at h <;> obtain ⟨h1, h2⟩ := h <;>
+    simp only [clampO, maxLbO, minUbO]
+  · rw [max_eq_left h1, min_eq_left h2]
+  · rw [max_eq_left h1, h2]
+  · rw [h1, min_eq_left h2]
+  · rw [h1, h2]
+
+theorem projectBox_inf (lb ub : Option α) (v lb' ub' : α) (h : Far lb ub v (maxLbO lb v) lb' ub') :
+    projectBox v lb' ub' = clampO lb ub v ∧ proxBox v lb' ub' = clampO lb ub v := by
+  rw [projectBox_eq, proxBox_eq, clamp_far lb ub v lb' ub' h]; exact ⟨rfl, rfl⟩
+
+theorem projGradStepBox_inf (lb ub : Option α) (γ x g lb' ub' : α)
+    (h : Far lb ub (x - γ * g) (maxLbO lb (x - γ * g)) lb' ub') :
+    (projGradStepBox γ x g lb' ub').2 = clampO lb ub (x - γ * g) := by
+  rw [projGradStepBox_eq_proj, clamp_far lb ub _ lb' ub' h]
+
+theorem proxStepBox_inf (lb ub : Option α) (x d γf lb' ub' : α)
+    (h : Far lb ub (x + γf * d) (maxLbO lb (x + γf * d)) lb' ub') :
+    (proxStepBox x d γf lb' ub').2 = clampO lb ub (x + γf * d) := by
+  rw [(proxStepBox_eq x d γf lb' ub').1, clamp_far lb ub _ lb' ub' h]
+
+theorem boxL1_far (t : α) (lb ub : Option α) (v lb' ub' : α)
+    (h : Far lb ub (max (min 0 (v + t)) (v - t)) (maxLbO lb (max (min 0 (v + t)) (v - t))) lb' ub') :
+    boxL1 t lb' ub' v = boxL1O t lb ub v := by
+  unfold boxL1 boxL1O; exact clamp_far lb ub _ lb' ub' h
+
+theorem proxGradStepBoxL1_inf (lb ub : Option α) (lam γ x g lb' ub' : α)
+    (h : Far lb ub (max (min 0 ((x - γ * g) + γ * lam)) ((x - γ * g) - γ * lam))
+      (maxLbO lb (max (min 0 ((x - γ * g) + γ * lam)) ((x - γ * g) - γ * lam))) lb' ub') :
+    (proxGradStepBoxL1 lam γ x g lb' ub').2 = boxL1O (γ * lam) lb ub (x - γ * g) := by
+  rw [(proxGradStepBoxL1_eq lam γ x g lb' ub').1]; exact boxL1_far _ lb ub _ lb' ub' h
+
+theorem inInterior_inf (lb ub : Option α) (v L U lb' ub' : α) (hL : L < v) (hU : v < U)
+    (h : Far lb ub L U lb' ub') : inInterior lb' ub' v = inInteriorO lb ub v := by
+  cases lb <;> cases ub <;> simp only [Far] at h <;> obtain ⟨h1, h2⟩ := h <;>
+    simp only [inInterior, inInteriorO]
+  · rw [decide_eq_true (lt_of_le_of_lt h1 hL), decide_eq_true (lt_of_lt_of_le hU h2)]
+  · rw [decide_eq_true (lt_of_le_of_lt h1 hL), h2]
+  · rw [decide_eq_true (lt_of_lt_of_le hU h2), h1]
+  · rw [h1, h2]
+
+theorem inactiveGeneral_inf (lb ub : Option α) (lam γ xfw lb' ub' : α)
+    (h : Far lb ub (xfw - |γ * lam| - 1) (xfw + |γ * lam| + 1) lb' ub') :
+    inactiveGeneral lam γ lb' ub' xfw = inactiveGeneralO lam γ lb ub xfw := by
+  have ha := le_abs_self (γ * lam)
+  have hb := neg_le_abs (γ * lam)
+  unfold inactiveGeneral inactiveGeneralO
+  simp only [beq_iff_eq]
+  split_ifs
+  · exact inInterior_inf lb ub _ _ _ lb' ub' (by linarith [abs_nonneg (γ * lam)]) (by linarith [abs_nonneg (γ * lam)]) h
+  · exact inInterior_inf lb ub _ _ _ lb' ub' (by linarith) (by linarith) h
+  · exact inInterior_inf lb ub _ _ _ lb' ub' (by linarith) (by linarith) h
+  · rfl
+
+/-- for a point of a non-empty extended box and a point `w`, stand-ins exist that are far enough
+    for `w`, contain `u`, and form a non-empty finite box. -/
+theorem Far.exists_with (lb ub : Option α) (hok : BoxOK lb ub) (w u : α) (hu : InBoxO lb ub u) :
+    ∃ lb' ub', Far lb ub w (maxLbO lb w) lb' ub' ∧ lb' ≤ u ∧ u ≤ ub' ∧ lb' ≤ ub' := by
+  cases lb with
+  | none =>
+    cases ub with
+    | none => exact ⟨min w u, max w u, ⟨min_le_left _ _, le_max_left _ _⟩, min_le_right _ _, le_max_right _ _,
+        (min_le_left _ _).trans (le_max_left _ _)⟩
+    | some b => exact ⟨min w u, b, ⟨min_le_left _ _, rfl⟩, min_le_right _ _, hu.2 b rfl,
+        (min_le_right _ _).trans (hu.2 b rfl)⟩
+  | some l =>
+    cases ub with
+    | none => exact ⟨l, max (max w l) u, ⟨rfl, le_max_left _ _⟩, hu.1 l rfl, le_max_right _ _,
+        (le_max_right w l).trans (le_max_left _ _)⟩
+    | some b => exact ⟨l, b, ⟨rfl, rfl⟩, hu.1 l rfl, hu.2 b rfl, hok l b rfl rfl⟩
+
+theorem clampO_in_box (lb ub : Option α) (hok : BoxOK lb ub) (v : α) : InBoxO lb ub (clampO lb ub v) := by
+  cases lb <;> cases ub <;> simp only [clampO, maxLbO, minUbO, InBoxO] <;> constructor <;> intro c hc <;>
+    simp only [Option.some.injEq, reduceCtorEq] at hc
+  · subst hc; exact min_le_right _ _
+  · subst hc; exact le_max_right _ _
+  · subst hc; exact le_min (le_max_right _ _) (hok _ _ rfl rfl)
+  · subst hc; exact min_le_right _ _
+
+/-- **projection with infinite sides**: unique closest point of the extended box. -/
+theorem clampO_strong (lb ub : Option α) (hok : BoxOK lb ub) (v u : α) (hu : InBoxO lb ub u) :
+    (clampO lb ub v - v) ^ 2 + (u - clampO lb ub v) ^ 2 ≤ (u - v) ^ 2 := by
+  obtain ⟨lb', ub', hf, h1, h2, h3⟩ := Far.exists_with lb ub hok v u hu
+  rw [← clamp_far lb ub v lb' ub' hf]
+  exact proj_strong v lb' ub' h3 u h1 h2
+
+theorem clampO_unique (lb ub : Option α) (hok : BoxOK lb ub) (v u : α) (hu : InBoxO lb ub u)
+    (hle : (u - v) ^ 2 ≤ (clampO lb ub v - v) ^ 2) : u = clampO lb ub v := by
+  have := clampO_strong lb ub hok v u hu
+  have : u - clampO lb ub v = 0 := by nlinarith [sq_nonneg (u - clampO lb ub v)]
+  linarith
+
+/-- **box+ℓ1 prox with infinite sides**, strong form. -/
+theorem boxL1O_strong (lam γ v : α) (lb ub : Option α) (hl : 0 ≤ lam) (hγ : 0 < γ) (hok : BoxOK lb ub)
+    (u : α) (hu : InBoxO lb ub u) :
+    lam * |boxL1O (γ * lam) lb ub v| + (boxL1O (γ * lam) lb ub v - v) ^ 2 / (2 * γ)
+        + (u - boxL1O (γ * lam) lb ub v) ^ 2 / (2 * γ)
+      ≤ lam * |u| + (u - v) ^ 2 / (2 * γ) := by
+  obtain ⟨lb', ub', hf, h1, h2, h3⟩ := Far.exists_with lb ub hok (max (min 0 (v + γ * lam)) (v - γ * lam)) u hu
+  rw [← boxL1_far (γ * lam) lb ub v lb' ub' hf]
+  exact boxL1_strong lam γ v lb' ub' hl hγ h3 u h1 h2
+
+theorem boxL1O_unique (lam γ v : α) (lb ub : Option α) (hl : 0 ≤ lam) (hγ : 0 < γ) (hok : BoxOK lb ub)
+    (u : α) (hu : InBoxO lb ub u)
+    (hle : lam * |u| + (u - v) ^ 2 / (2 * γ)
+      ≤ lam * |boxL1O (γ * lam) lb ub v| + (boxL1O (γ * lam) lb ub v - v) ^ 2 / (2 * γ)) :
+    u = boxL1O (γ * lam) lb ub v :=
+  eq_of_strong γ _ _ u _ hγ (boxL1O_strong lam γ v lb ub hl hγ hok u hu) hle
+
+theorem boxL1O_in_box (t : α) (lb ub : Option α) (hok : BoxOK lb ub) (v : α) : InBoxO lb ub (boxL1O t lb ub v) :=
+  clampO_in_box lb ub hok _
+
+theorem locallyShift_congr (P Q : α → α) (v ε : α) (hε : 0 < ε) (hPQ : ∀ w, |w - v| < ε → P w = Q w) :
+    LocallyShift P v ↔ LocallyShift Q v := by
+  have := locallyShift_of_eq_shift P Q v 0 ε hε (fun w hw => by rw [add_zero]; exact hPQ w hw)
+  rwa [add_zero] at this
+
+/-- **inactive-index test with infinite sides**. -/
+theorem inInteriorO_iff_locallyShift (lb ub : Option α) (hok : BoxOK lb ub) (v : α) :
+    inInteriorO lb ub v = true ↔ LocallyShift (clampO lb ub) v := by
+  -- stand-ins at distance ≥ 1 from `v`
+  let lb' : α := match lb with | none => minUbO ub (v - 1) | some l => l
+  let ub' : α := match ub with | none => maxLbO lb (v + 1) | some b => b
+  have hlu : lb' ≤ ub' := by
+    cases lb <;> cases ub <;> simp only [lb', ub', minUbO, maxLbO]
+    · linarith
+    · exact min_le_right _ _
+    · exact le_max_right _ _
+    · exact hok _ _ rfl rfl
+  have hL : ∀ w, v - 1 ≤ w → Far lb ub w (maxLbO lb (v + 1)) lb' ub' := by
+    intro w hw
+    cases lb <;> cases ub <;> simp only [Far, lb', ub', minUbO, maxLbO] <;> refine ⟨?_, ?_⟩ <;>
+      first | trivial | rfl | exact le_rfl | exact hw | exact (min_le_left _ _).trans hw
+  have hint : inInterior lb' ub' v = inInteriorO lb ub v :=
+    inInterior_inf lb ub v (v - 1) (v + 1) lb' ub' (by linarith) (by linarith)
+      ((hL (v - 1) le_rfl).mono le_rfl (le_maxLbO lb _))
+  rw [← hint, inInterior_iff_locallyShift lb' ub' v hlu]
+  apply locallyShift_congr _ _ v 1 one_pos
+  intro w hw
+  rw [abs_lt] at hw
+  exact clamp_far lb ub w lb' ub' ((hL w (by linarith)).mono le_rfl (maxLbO_mono lb (by linarith)))
+
+theorem boxL1O_zero (lb ub : Option α) (v : α) : boxL1O 0 lb ub v = clampO lb ub v := by
+  unfold boxL1O
+  rw [add_zero, sub_zero]
+  congr 1
+  rcases le_total 0 v with h | h
+  · rw [min_eq_left h, max_eq_right h]
+  · rw [min_eq_right h, max_eq_left le_rfl]
+
+theorem not_locallyShift_deadO (t : α) (lb ub : Option α) (v : α) (ht : 0 < t) (h1 : -t ≤ v) (h2 : v ≤ t) :
+    ¬ LocallyShift (boxL1O t lb ub) v := by
+  rintro ⟨δ, hδ, hs⟩
+  have hv : boxL1O t lb ub v = clampO lb ub 0 := by unfold boxL1O; rw [soft_mid t v h1 h2]
+  rcases lt_or_eq_of_le h2 with h | h
+  · have hm : 0 < min (δ / 2) (t - v) := lt_min (by linarith) (by linarith)
+    have hl1 := min_le_left (δ / 2) (t - v)
+    have hl2 := min_le_right (δ / 2) (t - v)
+    have := hs (v + min (δ / 2) (t - v)) (by rw [abs_lt]; constructor <;> linarith)
+    have hv' : boxL1O t lb ub (v + min (δ / 2) (t - v)) = clampO lb ub 0 := by
+      unfold boxL1O; rw [soft_mid t _ (by linarith) (by linarith)]
+    rw [hv, hv'] at this; linarith
+  · have hm : 0 < min (δ / 2) (2 * t) := lt_min (by linarith) (by linarith)
+    have hl1 := min_le_left (δ / 2) (2 * t)
+    have hl2 := min_le_right (δ / 2) (2 * t)
+    have := hs (v - min (δ / 2) (2 * t)) (by rw [abs_lt]; constructor <;> linarith)
+    have hv' : boxL1O t lb ub (v - min (δ / 2) (2 * t)) = clampO lb ub 0 := by
+      unfold boxL1O; rw [soft_mid t _ (by linarith) (by linarith)]
+    rw [hv, hv'] at this; linarith
+
+/-- **general inactive-index test with infinite sides** (`γλ ≥ 0`, zero weight included). -/
+theorem inactiveGeneralO_iff_locallyShift (lam γ : α) (lb ub : Option α) (v : α) (ht : 0 ≤ γ * lam)
+    (hγ : 0 < γ) (hok : BoxOK lb ub) :
+    inactiveGeneralO lam γ lb ub v = true ↔ LocallyShift (boxL1O (γ * lam) lb ub) v := by
+  unfold inactiveGeneralO
+  by_cases hlam : lam = 0
+  · rw [if_pos hlam, hlam, mul_zero, inInteriorO_iff_locallyShift lb ub hok]
+    have : boxL1O 0 lb ub = clampO lb ub := by funext w; exact boxL1O_zero lb ub w
+    rw [this]
+  have ht : 0 < γ * lam := lt_of_le_of_ne ht (by
+    intro h; rcases mul_eq_zero.mp h.symm with h | h
+    · exact hγ.ne' h
+    · exact hlam h)
+  rw [if_neg hlam]
+  split_ifs with h1 h2
+  · rw [inInteriorO_iff_locallyShift lb ub hok]
+    have := locallyShift_of_eq_shift (boxL1O (γ * lam) lb ub) (clampO lb ub) v (-(γ * lam))
+      (v - γ * lam) (by linarith) (fun w hw => by
+        rw [abs_lt] at hw
+        unfold boxL1O; rw [soft_gt _ _ ht.le (by linarith)]; ring_nf)
+    rw [this, sub_eq_add_neg]
+  · rw [inInteriorO_iff_locallyShift lb ub hok]
+    have h2' : v < -(γ * lam) := by linarith
+    have := locallyShift_of_eq_shift (boxL1O (γ * lam) lb ub) (clampO lb ub) v (γ * lam)
+      (-(γ * lam) - v) (by linarith) (fun w hw => by
+        rw [abs_lt] at hw
+        unfold boxL1O; rw [soft_lt _ _ ht.le (by linarith)])
+    rw [this]
+  · simp only [false_iff]
+    exact not_locallyShift_deadO _ lb ub v ht (by linarith) (by linarith)
+
+/-! #### vector lifts with infinite sides -/
+
+/-- every component of `C15.proxGradStep` run with far stand-ins is the extended box+ℓ1 prox. -/
+theorem proxGradStep_xhat_inf (l1 : Vec α) (γ : α) (x g lb' ub' : Vec α) (lbO ubO : Nat → Option α)
+    (hfar : ∀ i < x.length,
+      Far (lbO i) (ubO i)
+        (max (min 0 ((vget x i - γ * vget g i) + γ * lamAt l1 i)) ((vget x i - γ * vget g i) - γ * lamAt l1 i))
+        (maxLbO (lbO i) (max (min 0 ((vget x i - γ * vget g i) + γ * lamAt l1 i)) ((vget x i - γ * vget g i) - γ * lamAt l1 i)))
+        (vget lb' i) (vget ub' i))
+    (i : Nat) (hi : i < x.length) :
+    vget (proxGradStep l1 γ x g lb' ub').2.1 i
+      = boxL1O (γ * lamAt l1 i) (lbO i) (ubO i) (vget x i - γ * vget g i) := by
+  rw [proxGradStep_xhat _ _ _ _ _ _ _ hi]
+  exact boxL1_far _ _ _ _ _ _ (hfar i hi)
+
+
+/-- **vector form with infinite sides, strong**: `x̂` (computed with far stand-ins, i.e. what IEEE
+    `±inf` computes) satisfies the strong minimiser inequality over the *extended* box. -/
+theorem proxGradStep_vector_strong_inf (l1 : Vec α) (γ : α) (x g lb' ub' : Vec α) (lbO ubO : Nat → Option α)
+    (hγ : 0 < γ) (hok : ∀ i < x.length, BoxOK (lbO i) (ubO i)) (hl : ∀ i < x.length, 0 ≤ lamAt l1 i)
+    (hfar : ∀ i < x.length,
+      Far (lbO i) (ubO i)
+        (max (min 0 ((vget x i - γ * vget g i) + γ * lamAt l1 i)) ((vget x i - γ * vget g i) - γ * lamAt l1 i))
+        (maxLbO (lbO i) (max (min 0 ((vget x i - γ * vget g i) + γ * lamAt l1 i)) ((vget x i - γ * vget g i) - γ * lamAt l1 i)))
+        (vget lb' i) (vget ub' i))
+    (u : Vec α) (hu : ∀ i < x.length, InBoxO (lbO i) (ubO i) (vget u i)) :
+    ((List.range x.length).map fun i =>
+        lamAt l1 i * |vget (proxGradStep l1 γ x g lb' ub').2.1 i|
+          + (vget (proxGradStep l1 γ x g lb' ub').2.1 i - (vget x i - γ * vget g i)) ^ 2 / (2 * γ)).sum
+      + ((List.range x.length).map fun i =>
+          (vget u i - vget (proxGradStep l1 γ x g lb' ub').2.1 i) ^ 2 / (2 * γ)).sum
+      ≤ ((List.range x.length).map fun i =>
+        lamAt l1 i * |vget u i| + (vget u i - (vget x i - γ * vget g i)) ^ 2 / (2 * γ)).sum := by
+  rw [← sum_range_add]
+  apply sum_range_le
+  intro i hi
+  rw [proxGradStep_xhat_inf l1 γ x g lb' ub' lbO ubO hfar i hi]
+  exact boxL1O_strong (lamAt l1 i) γ _ _ _ (hl i hi) hγ (hok i hi) _ (hu i hi)
+
+theorem proxGradStep_vector_unique_inf (l1 : Vec α) (γ : α) (x g lb' ub' : Vec α) (lbO ubO : Nat → Option α)
+    (hγ : 0 < γ) (hok : ∀ i < x.length, BoxOK (lbO i) (ubO i)) (hl : ∀ i < x.length, 0 ≤ lamAt l1 i)
+    (hfar : ∀ i < x.length,
+      Far (lbO i) (ubO i)
+        (max (min 0 ((vget x i - γ * vget g i) + γ * lamAt l1 i)) ((vget x i - γ * vget g i) - γ * lamAt l1 i))
+        (maxLbO (lbO i) (max (min 0 ((vget x i - γ * vget g i) + γ * lamAt l1 i)) ((vget x i - γ * vget g i) - γ * lamAt l1 i)))
+        (vget lb' i) (vget ub' i))
+    (u : Vec α) (hu : ∀ i < x.length, InBoxO (lbO i) (ubO i) (vget u i))
+    (hle : ((List.range x.length).map fun i =>
+        lamAt l1 i * |vget u i| + (vget u i - (vget x i - γ * vget g i)) ^ 2 / (2 * γ)).sum
+      ≤ ((List.range x.length).map fun i =>
+        lamAt l1 i * |vget (proxGradStep l1 γ x g lb' ub').2.1 i|
+          + (vget (proxGradStep l1 γ x g lb' ub').2.1 i - (vget x i - γ * vget g i)) ^ 2 / (2 * γ)).sum) :
+    ∀ i < x.length, vget u i = vget (proxGradStep l1 γ x g lb' ub').2.1 i := by
+  apply vector_unique_of_strong x.length γ hγ _ _ _ _ _ hle
+  intro i hi
+  rw [proxGradStep_xhat_inf l1 γ x g lb' ub' lbO ubO hfar i hi]
+  exact boxL1O_strong (lamAt l1 i) γ _ _ _ (hl i hi) hγ (hok i hi) _ (hu i hi)
+
+/-- **the reported `J` with infinite sides**: run with far stand-ins, `i ∈ J` iff the extended
+    box+ℓ1 prox is locally the identity shift at the forward point. -/
+theorem inactiveIndices_iff_locally_shift_inf (l1 : Vec α) (γ : α) (x g lb' ub' : Vec α)
+    (lbO ubO : Nat → Option α) (hγ : 0 < γ) (hl : ∀ i < x.length, 0 ≤ lamAt l1 i)
+    (hok : ∀ i < x.length, BoxOK (lbO i) (ubO i))
+    (hfar : ∀ i < x.length,
+      Far (lbO i) (ubO i) ((vget x i - γ * vget g i) - |γ * lamAt l1 i| - 1)
+        ((vget x i - γ * vget g i) + |γ * lamAt l1 i| + 1) (vget lb' i) (vget ub' i))
+    (i : Nat) :
+    i ∈ inactiveIndices l1 γ x g lb' ub' ↔
+      i < x.length ∧
+        LocallyShift (boxL1O (γ * lamAt l1 i) (lbO i) (ubO i)) (vget x i - γ * vget g i) := by
+  rw [mem_inactiveIndices_iff]
+  apply and_congr_right
+  intro hi
+  rw [inactiveGeneral_inf (lbO i) (ubO i) _ _ _ _ _ (hfar i hi)]
+  exact inactiveGeneralO_iff_locallyShift _ _ _ _ _ (mul_nonneg hγ.le (hl i hi)) hγ (hok i hi)
+
+/-! ### `eval_proj_multipliers_box` on the whole vector (`C15.projMultipliers`)
+
+  The flags `lbInf i` / `ubInf i` say "`D.lowerbound(i) == -inf`" / "`D.upperbound(i) == +inf`"
+  (the driver computes them with exactly these comparisons), so infinite bounds need no stand-in
+  here: the finite bound values never enter `eval_proj_multipliers_box`.  Documented convention
+  (comments in the source): no lower bound ⇒ the multiplier can only be positive (`y_i ≥ 0`), no
+  upper bound ⇒ only negative (`y_i ≤ 0`); the first `penalty_alm_split` rows are handled by a
+  quadratic penalty and get multiplier 0. -/
+
+theorem projMultipliers_length (lbInf ubInf : List Bool) (split : Nat) (M : α) (y : Vec α) :
+    (projMultipliers lbInf ubInf split M y).length = y.length := by
+  simp [projMultipliers]
+
+/-- **penalty-only rows** (`i < penalty_alm_split`) are set to 0. -/
+theorem projMultipliers_penalty_rows (lbInf ubInf : List Bool) (split : Nat) (M : α) (y : Vec α)
+    (i : Nat) (hi : i < y.length) (hs : i < split) :
+    vget (projMultipliers lbInf ubInf split M y) i = 0 := by
+  unfold projMultipliers
+  rw [vget_map_range _ _ _ hi, if_pos hs]
+
+/-- **ALM rows** (`split ≤ i`) are clamped to `[y_lb, y_ub]`, `y_lb = 0` if the constraint has no
+    lower bound else `−M`, `y_ub = 0` if it has no upper bound else `M`. -/
+theorem projMultipliers_alm_rows (lbInf ubInf : List Bool) (split : Nat) (M : α) (y : Vec α)
+    (i : Nat) (hi : i < y.length) (hs : split ≤ i) :
+    vget (projMultipliers lbInf ubInf split M y) i
+      = min (max (vget y i) (if lbInf.getD i false then 0 else -M)) (if ubInf.getD i false then 0 else M) := by
+  unfold projMultipliers
+  rw [vget_map_range _ _ _ hi, if_neg (by omega)]
+  simp only [projMult1, emax_eq_max, emin_eq_min]
+
+/-- every row ends up within `±M`. -/
+theorem projMultipliers_clamps (lbInf ubInf : List Bool) (split : Nat) (M : α) (y : Vec α)
+    (hM : 0 ≤ M) (i : Nat) (hi : i < y.length) :
+    -M ≤ vget (projMultipliers lbInf ubInf split M y) i ∧
+    vget (projMultipliers lbInf ubInf split M y) i ≤ M := by
+  unfold projMultipliers
+  rw [vget_map_range _ _ _ hi]
+  split_ifs
+  · exact ⟨by linarith, hM⟩
+  · exact projMult1_bounds _ _ M _ hM
+
+/-- one-sided rows: no lower bound ⇒ `y_i ≥ 0`; no upper bound ⇒ `y_i ≤ 0`; free row ⇒ `y_i = 0`. -/
+theorem projMultipliers_sign (lbInf ubInf : List Bool) (split : Nat) (M : α) (y : Vec α)
+    (hM : 0 ≤ M) (i : Nat) (hi : i < y.length) :
+    (lbInf.getD i false = true → 0 ≤ vget (projMultipliers lbInf ubInf split M y) i) ∧
+    (ubInf.getD i false = true → vget (projMultipliers lbInf ubInf split M y) i ≤ 0) := by
+  unfold projMultipliers
+  rw [vget_map_range _ _ _ hi]
+  split_ifs
+  · exact ⟨fun _ => le_rfl, fun _ => le_rfl⟩
+  · exact projMult1_sign _ _ M _ hM
+
+/-- it is a projection: on an ALM row the result is the unique closest point of `[y_lb, y_ub]` to
+    `y_i`, so a multiplier already in range is returned unchanged. -/
+theorem projMultipliers_closest (lbInf ubInf : List Bool) (split : Nat) (M : α) (y : Vec α)
+    (hM : 0 ≤ M) (i : Nat) (hi : i < y.length) (hs : split ≤ i) (u : α)
+    (h1 : (if lbInf.getD i false then 0 else -M) ≤ u) (h2 : u ≤ (if ubInf.getD i false then 0 else M)) :
+    (vget (projMultipliers lbInf ubInf split M y) i - vget y i) ^ 2
+        + (u - vget (projMultipliers lbInf ubInf split M y) i) ^ 2 ≤ (u - vget y i) ^ 2 := by
+  rw [projMultipliers_alm_rows _ _ _ _ _ i hi hs]
+  apply proj_strong _ _ _ _ u h1 h2
+  cases lbInf.getD i false <;> cases ubInf.getD i false <;> simp <;> linarith
+
+theorem projMultipliers_inrange (lbInf ubInf : List Bool) (split : Nat) (M : α) (y : Vec α)
+    (i : Nat) (hi : i < y.length) (hs : split ≤ i)
+    (h1 : (if lbInf.getD i false then 0 else -M) ≤ vget y i)
+    (h2 : vget y i ≤ (if ubInf.getD i false then 0 else M)) :
+    vget (projMultipliers lbInf ubInf split M y) i = vget y i := by
+  rw [projMultipliers_alm_rows _ _ _ _ _ i hi hs, max_eq_left h1, min_eq_left h2]
+
 /-! ### Non-vacuity: concrete instances meeting the hypotheses (over ℚ) -/
 
 example : (projGradStepBox (1/2 : ℚ) 1 4 0 3).2 = 0 ∧ (0:ℚ) ≤ 3 := by
@@ -754,5 +1438,89 @@ example : cplxSoftScalarW (1:ℝ) 1 3 4 = (12/5, 16/5) := by
   rw [cplxSoft_closed, h5, if_neg (by norm_num)]
   norm_num
 example : cplxSoftScalarW (1:ℝ) 5 3 4 = (0, 0) := cplxSoft_tie _ _ _ _ (by norm_num)
+
+
+/-! #### strong form / uniqueness / infinite sides / multiplier vector: every hypothesis instantiated -/
+
+-- soft-threshold, λ = 2, γ = 1/2, v = 3 (x̂ = 2), competitor u = 1; and the zero weight λ = 0
+example := l1Prox_strong (2:ℚ) (1/2) 3 (by norm_num) (by norm_num) 1
+example := l1Prox_strong (0:ℚ) (1/2) 3 le_rfl (by norm_num) 1
+example : (2:ℚ) = l1ProxScalarW 2 (1/2) 3 :=
+  l1Prox_unique 2 (1/2) 3 (by norm_num) (by norm_num) 2 (by norm_num [l1ProxScalarW, emax, emin])
+example := soft_strong (2:ℚ) (1/2) (-3) (by norm_num) (by norm_num) 1
+-- box projection: v = −1 onto [0, 3], competitor u = 2 (a box with lb > 0, not containing 0)
+example := projGradStepBox_strong (1/2 : ℚ) 1 4 0 3 (by norm_num) 2 (by norm_num) (by norm_num)
+example : (0:ℚ) = (projGradStepBox (1/2) 1 4 0 3).2 :=
+  projGradStepBox_unique (1/2) 1 4 0 3 (by norm_num) 0 le_rfl (by norm_num)
+    (by norm_num [projGradStepBox, emax, emin])
+-- box + ℓ1: λ = 1, γ = 1, x = 5, g = 1 (v = 4, soft = 3, x̂ = 2), box [−1, 2], competitor u = 0;
+-- and a box that does not contain 0 ([1, 2], arbitrary lb ≤ ub)
+example := proxGradStepBoxL1_strong (1:ℚ) 1 5 1 (-1) 2 (by norm_num) (by norm_num) (by norm_num) 0
+  (by norm_num) (by norm_num)
+example := proxGradStepBoxL1_strong (1:ℚ) 1 5 1 1 2 (by norm_num) (by norm_num) (by norm_num) 1
+  le_rfl (by norm_num)
+example : (2:ℚ) = (proxGradStepBoxL1 1 1 5 1 (-1) 2).2 :=
+  proxGradStepBoxL1_unique 1 1 5 1 (-1) 2 (by norm_num) (by norm_num) (by norm_num) 2 (by norm_num) le_rfl
+    (by norm_num [proxGradStepBoxL1, emax, emin])
+-- vector: n = 2, scalar weight 1, γ = 1, competitor u = [0, 1/2]
+example := proxGradStep_vector_strong [(1:ℚ)] 1 [5, 0] [1, 0] [-1, -1] [2, 2] (by norm_num)
+  (by intro i hi; have : i = 0 ∨ i = 1 := by simp at hi; omega
+      rcases this with rfl | rfl <;> norm_num [vget])
+  (by intro i _; norm_num [lamAt, vget])
+  [0, 1/2]
+  (by intro i hi; have : i = 0 ∨ i = 1 := by simp at hi; omega
+      rcases this with rfl | rfl <;> norm_num [vget])
+-- infinite sides: lb = −∞ stood in by −1000, ub = 3
+example : (projGradStepBox (1/2 : ℚ) 1 4 (-1000) 3).2 = clampO none (some 3) (1 - 1/2 * 4) :=
+  projGradStepBox_inf none (some 3) (1/2) 1 4 (-1000) 3 (by norm_num [Far, maxLbO])
+example := boxL1O_strong (1:ℚ) 1 4 none (some 2) (by norm_num) (by norm_num)
+  (by intro l b h _; cases h) 0 ⟨(by intro l h; cases h), (by intro b h; cases h; norm_num)⟩
+example : inInteriorO (none : Option ℚ) (some 2) 1 = true := by decide
+example : inactiveGeneral (1:ℚ) 1 (-1000) 3 2 = inactiveGeneralO (1:ℚ) 1 none (some 3) 2 :=
+  inactiveGeneral_inf none (some (3:ℚ)) 1 1 2 (-1000) 3 (by norm_num [Far, abs_one])
+-- vector with infinite sides: component 0 has (−∞, 2], component 1 has [−1, +∞)
+example := proxGradStep_vector_strong_inf [(1:ℚ)] 1 [5, 0] [1, 0] [-100, -1] [2, 100]
+  (fun i => if i = 0 then none else some (-1)) (fun i => if i = 0 then some 2 else none) (by norm_num)
+  (by intro i hi; have : i = 0 ∨ i = 1 := by simp at hi; omega
+      rcases this with rfl | rfl <;> intro l b h1 h2 <;> simp at h1 h2)
+  (by intro i _; norm_num [lamAt, vget])
+  (by intro i hi; have : i = 0 ∨ i = 1 := by simp at hi; omega
+      rcases this with rfl | rfl <;> norm_num [Far, maxLbO, lamAt, vget])
+  [0, 1/2]
+  (by intro i hi; have : i = 0 ∨ i = 1 := by simp at hi; omega
+      rcases this with rfl | rfl <;> constructor <;> intro c hc <;> simp at hc <;> subst hc <;> norm_num [vget])
+-- multiplier projection: penalty row 0, one-sided rows 1 and 2, free row 3, two-sided row 4
+example : projMultipliers [false, true, false, true, false] [false, false, true, true, false] 1 (10:ℚ)
+    [7, 4, -20, 5, 30] = [0, 4, -10, 0, 10] := by
+  norm_num [projMultipliers, projMult1, vget, emax, emin, List.range, List.range.loop]
+example := projMultipliers_penalty_rows [false, true, false, true, false] [false, false, true, true, false] 1 (10:ℚ)
+  [7, 4, -20, 5, 30] 0 (by simp) (by norm_num)
+example := projMultipliers_sign [false, true, false, true, false] [false, false, true, true, false] 1 (10:ℚ)
+  [7, 4, -20, 5, 30] (by norm_num) 2 (by simp)
+example := projMultipliers_closest [false, true, false, true, false] [false, false, true, true, false] 1 (10:ℚ)
+  [7, 4, -20, 5, 30] (by norm_num) 2 (by simp) (by norm_num) (-5) (by norm_num) (by norm_num)
+
+example : ∀ i < 2, vget [(2:ℚ), 0] i = vget (proxGradStep [(1:ℚ)] 1 [5, 0] [1, 0] [-1, -1] [2, 2]).2.1 i :=
+  (proxGradStep_vector_unique [(1:ℚ)] 1 [5, 0] [1, 0] [-1, -1] [2, 2] (by norm_num)
+    (by intro i hi; have : i = 0 ∨ i = 1 := by simp at hi; omega
+        rcases this with rfl | rfl <;> norm_num [vget])
+    (by intro i _; norm_num [lamAt, vget])
+    [2, 0]
+    (by intro i hi; have : i = 0 ∨ i = 1 := by simp at hi; omega
+        rcases this with rfl | rfl <;> norm_num [vget])
+    (by norm_num [proxGradStep, proxGradStepBoxL1, vget, emax, emin, List.range, List.range.loop, lamAt])).1
+example := clampO_strong (none : Option ℚ) (some 3) (by intro l b h _; cases h) 5 1
+  ⟨(by intro l h; cases h), (by intro b h; cases h; norm_num)⟩
+example := inInteriorO_iff_locallyShift (none : Option ℚ) (some 3) (by intro l b h _; cases h) 1
+example := inactiveGeneralO_iff_locallyShift (1:ℚ) 1 none (some 3) 2 (by norm_num) (by norm_num)
+  (by intro l b h _; cases h)
+example := inactiveIndices_iff_locally_shift_inf [(1:ℚ)] 1 [5, 0] [1, 0] [-100, -1] [2, 100]
+  (fun i => if i = 0 then none else some (-1)) (fun i => if i = 0 then some 2 else none) (by norm_num)
+  (by intro i _; norm_num [lamAt, vget])
+  (by intro i hi; have : i = 0 ∨ i = 1 := by simp at hi; omega
+      rcases this with rfl | rfl <;> intro l b h1 h2 <;> simp at h1 h2)
+  (by intro i hi; have : i = 0 ∨ i = 1 := by simp at hi; omega
+      rcases this with rfl | rfl <;> norm_num [Far, lamAt, vget, abs_one])
+  0
 
 end Alpaqa.Props.C15
